@@ -45,6 +45,17 @@ type c15Case struct {
 	Goods  int        `json:"goods"`  // number of good clients arriving while the bad peers stall
 	Sizes  [][2]int64 `json:"sizes"`  // per good logical connection: bytes app->target, target->app
 	Seed   int64      `json:"seed"`
+
+	// garbage peers (c15_garbage_test.go): what peer i sends (strconv.Quote'd bytes; "" for a peer that only stalls)
+	Garbage      []string `json:"garbage,omitempty"`
+	GarbageClass []string `json:"garbage_class,omitempty"`
+	Variant      int      `json:"variant,omitempty"` // selects the walk through the garbage grid (thorough)
+
+	// long stalls (c15_hold_test.go): the good clients arrive only after the stalled peers have been
+	// there for so long that the server's own clocks have acted on them
+	Hold            string `json:"hold,omitempty"`                     // "" | "dns-expiry-pass" | "seconds"
+	HoldN           int    `json:"hold_n,omitempty"`                   // passes of the DNS listener's expiry sweep / seconds
+	DNSConnTimeoutS int    `json:"dns_connection_timeout_s,omitempty"` // sdns.ConnectionTimeout during the scenario
 }
 
 var kinds = []string{"tcp", "unix", "tcp+tls", "tcp+starttls", "ws", "wss", "udp", "dns"}
@@ -122,6 +133,11 @@ type badPeer struct {
 	step    string // last completed step (diagnostics)
 	err     string
 	mu      sync.Mutex
+
+	payload []byte // garbage peers: what it sends
+	class   string
+	answer  string // garbage peers: what came back (recorded only)
+	ansDone bool   // the server ended the connection (or the read failed)
 }
 
 func (b *badPeer) setStep(s string) {
@@ -395,6 +411,9 @@ func (b *badPeer) run(p *e2e.Pair, kind string, seed int64) error {
 		_, err := c.Write(data)
 		return err
 	}
+	if isGarbagePoint(b.Point) {
+		return b.runGarbage(p, kind)
+	}
 	switch b.Point {
 	case ptDNSVersion:
 		return b.dnsPartial(p, false)
@@ -487,9 +506,118 @@ func (b *badPeer) run(p *e2e.Pair, kind string, seed int64) error {
 	return nil
 }
 
+// runGarbage sends the peer's garbage at its layer and then only listens (what comes back is recorded).
+func (b *badPeer) runGarbage(p *e2e.Pair, kind string) error {
+	base, _ := baseOf(kind)
+	send := func(w io.Writer) {
+		if _, err := w.Write(b.payload); err != nil {
+			// the server may drop the connection on the first bytes while the rest is still being
+			// written: the peer has done what it will ever do
+			b.setStep("garbage-write-ended-early: " + e2e.Clip(err.Error(), 80))
+			return
+		}
+		b.setStep("garbage-sent")
+	}
+	switch b.Point {
+	case ptGarbageRaw:
+		var c net.Conn
+		var err error
+		if base == "udp" || base == "dns" {
+			c, err = net.Dial("udp", hostOf(p))
+		} else {
+			c, err = rawDial(p, kind)
+		}
+		if err != nil {
+			return err
+		}
+		b.raw = c
+		send(c)
+		b.listen(c, nil)
+		return nil
+	case ptGarbageHTTP:
+		c, err := rawDial(p, kind)
+		if err != nil {
+			return err
+		}
+		b.raw = c
+		var w net.Conn = c
+		if base == "wss" {
+			t := tls.Client(c, &tls.Config{InsecureSkipVerify: true})
+			if err := t.Handshake(); err != nil {
+				return fmt.Errorf("tls handshake: %v", err)
+			}
+			b.keep = append(b.keep, t)
+			w = t
+		}
+		send(w)
+		b.listen(w, nil)
+		return nil
+	}
+	if err := b.carrier(p, kind); err != nil {
+		return err
+	}
+	if b.Point == ptGarbageReq2 {
+		if err := b.announce(); err != nil {
+			return err
+		}
+	}
+	send(b.conn)
+	b.listen(b.rd, b.rd)
+	return nil
+}
+
+// listen watches what the server sends to a garbage peer: a parsable socketace answer (parse != nil),
+// any bytes, the end of the connection. Recorded only.
+func (b *badPeer) listen(r io.Reader, parse *bufio.Reader) {
+	set := func(f func()) {
+		b.mu.Lock()
+		f()
+		b.mu.Unlock()
+	}
+	go func() {
+		if parse != nil {
+			resp := &socketace.Response{}
+			if err := resp.Read(parse); err == nil {
+				set(func() { b.answer = fmt.Sprintf("status-%d", resp.StatusCode) })
+			}
+		}
+		buf := make([]byte, 4096)
+		n := 0
+		for {
+			k, err := r.Read(buf)
+			n += k
+			if k > 0 && parse == nil {
+				set(func() { b.answer = "bytes" })
+			}
+			if err != nil {
+				break
+			}
+		}
+		set(func() {
+			if b.answer == "" {
+				b.answer = "none"
+			}
+			b.ansDone = true
+		})
+	}()
+}
+
 // state looks at the peer's own socket at the end: still open (a zero-wait read times out) or
 // closed by the server (end-of-stream / reset). Recorded only, never judged.
 func (b *badPeer) state() string {
+	if isGarbagePoint(b.Point) {
+		// the peer's own reader has been watching the connection all the time
+		b.mu.Lock()
+		defer b.mu.Unlock()
+		st := "open"
+		if b.ansDone {
+			st = "closed-by-server"
+		}
+		if b.dns == nil && b.raw == nil {
+			st = "open(kcp:no-close-signal)"
+		}
+		return st + "(answer:" + b.answer + ")"
+	}
 	if b.dns != nil {
 		if b.dns.Closed() {
 			return "closed"
@@ -627,8 +755,9 @@ func oneLogical(p *e2e.Pair, ec *e2e.ExtraClient, sz [2]int64, key uint64) goodO
 // ---- one scenario ----------------------------------------------------------------------------
 
 type runState struct {
-	rec    *vcommon.Rec
-	stalls map[string]int // kind -> scenarios that cost a stall window
+	rec     *vcommon.Rec
+	stalls  map[string]int // kind -> scenarios that cost a stall window
+	abandon string         // set when this process can no longer run scenarios reliably (a clean-up that never finished)
 }
 
 func startServer(c *c15Case) (*e2e.Pair, error) {
@@ -636,28 +765,48 @@ func startServer(c *c15Case) (*e2e.Pair, error) {
 }
 
 func caseKey(c *c15Case) string {
-	return fmt.Sprintf("%s/%s/%s/%d/%v", c.Kind, c.Order, strings.Join(c.Points, ","), c.Goods, c.Sizes)
+	return fmt.Sprintf("%s/%s/%s/%d/%v/%s/%s%d", c.Kind, c.Order, strings.Join(c.Points, ","), c.Goods, c.Sizes, strings.Join(c.GarbageClass, ","), c.Hold, c.HoldN)
 }
 
 // runScenario returns true when the scenario cost a stall window (budget control).
 func (rs *runState) runScenario(c *c15Case) (stalled bool) {
 	rec := rs.rec
 	rec.Mark(c)
+	var hs *holdState
+	if c.Hold != "" {
+		hs = beginHold(c)
+		defer hs.end() // runs after the clean-up below
+	}
 	p, err := startServer(c)
 	if err != nil {
 		rec.Violation(c.Kind+":setup-failed", c, err.Error())
 		return false
 	}
+	if base, _ := baseOf(c.Kind); base == "dns" {
+		dnsListenersStarted++
+	}
 	var bads []*badPeer
 	var goods []*e2e.ExtraClient
+	violBefore := rec.ViolationCount()
 	defer func() {
-		for _, b := range bads {
-			b.close()
+		// the clean-up runs the server's and the clients' own shutdown code: bounded, so that a server
+		// that is wedged (which the scenario has reported by then) cannot hold the whole child
+		done := e2e.Go(func() {
+			for _, b := range bads {
+				b.close()
+			}
+			for _, g := range goods {
+				g.Close()
+			}
+			p.Close()
+		})
+		if e2e.WaitW(done, 3*e2e.StallWindow()) != e2e.Done {
+			rs.abandon = "the clean-up of a scenario did not finish"
+			rec.Note(rs.abandon, map[string]interface{}{"case": c, "goroutines": e2e.Clip(e2e.Stacks(), 60000)})
+			if rec.ViolationCount() == violBefore {
+				rec.Inconclusive("the clean-up of a scenario (server and client shutdown) did not finish", c)
+			}
 		}
-		for _, g := range goods {
-			g.Close()
-		}
-		p.Close()
 		runtime.KeepAlive(bads)
 	}()
 
@@ -719,8 +868,16 @@ func (rs *runState) runScenario(c *c15Case) (stalled bool) {
 
 	// the bad peers go to their stall points (concurrently; each one is independent of the others
 	// on a server that serves peers independently)
-	for _, pt := range c.Points {
-		bads = append(bads, &badPeer{Point: pt})
+	for i, pt := range c.Points {
+		b := &badPeer{Point: pt}
+		if isGarbagePoint(pt) {
+			var err error
+			if b.payload, b.class, err = payloadOf(c, i); err != nil {
+				rec.Violation(c.Kind+":setup-failed", c, "case descriptor: "+err.Error())
+				return
+			}
+		}
+		bads = append(bads, b)
 	}
 	var wg sync.WaitGroup
 	for i, b := range bads {
@@ -766,15 +923,45 @@ func (rs *runState) runScenario(c *c15Case) (stalled bool) {
 	// so that the stalled peers really are there first. (Ordering only; no verdict depends on it.)
 	time.Sleep(250 * time.Millisecond)
 
-	// the good clients arrive, all at once
 	type job struct {
 		ec  *e2e.ExtraClient
 		who string
 		idx int
 	}
 	var jobs []job
+	nextIdx := 1
+	heldPasses, heldObserved := int64(0), true
+	if hs != nil {
+		// the stalled peers stay where they are while the server's clocks run; good clients keep coming
+		tReached := time.Now()
+		mid := func(i int) bool {
+			ec, who := first, "A (another logical connection on its existing session, while the stall lasts)"
+			if ec == nil || i%2 == 1 {
+				var err error
+				if ec, err = p.NewClient(fmt.Sprintf("h%d", i)); err != nil {
+					rec.Violation(c.Kind+":setup-failed", c, err.Error())
+					return false
+				}
+				goods = append(goods, ec)
+				who = fmt.Sprintf("new client arriving while the stall lasts (#%d)", i)
+			}
+			idx := nextIdx
+			nextIdx++
+			return report(oneLogical(p, ec, sizeOf(idx), uint64(c.Seed)*16+uint64(idx)), who, true)
+		}
+		var ok bool
+		heldObserved, heldPasses, ok = hs.wait(tReached, mid)
+		rec.Stat("seconds_held", int64(time.Since(tReached)/time.Second))
+		if !ok {
+			rec.Case(caseKey(c), true)
+			return
+		}
+	}
+
+	// the good clients arrive, all at once
 	if first != nil {
-		jobs = append(jobs, job{first, "A (second logical connection on its existing session)", 1})
+		jobs = append(jobs, job{first, "A (second logical connection on its existing session)", nextIdx})
+		nextIdx++
 	}
 	for i := 0; i < c.Goods; i++ {
 		ec, err := p.NewClient(fmt.Sprintf("g%d", i))
@@ -783,7 +970,8 @@ func (rs *runState) runScenario(c *c15Case) (stalled bool) {
 			return
 		}
 		goods = append(goods, ec)
-		jobs = append(jobs, job{ec, fmt.Sprintf("new client %d", i), len(jobs) + 1})
+		jobs = append(jobs, job{ec, fmt.Sprintf("new client %d", i), nextIdx})
+		nextIdx++
 	}
 	outs := make([]goodOutcome, len(jobs))
 	var gw sync.WaitGroup
@@ -806,6 +994,12 @@ func (rs *runState) runScenario(c *c15Case) (stalled bool) {
 	for _, b := range bads {
 		s := b.state()
 		rec.Seen("bad-peer-state-at-end", c.Kind+"|"+b.Point+"|"+s)
+		if isGarbagePoint(b.Point) {
+			rec.Seen("garbage(kind,layer,class)->server's reaction", c.Kind+"|"+b.Point+"|"+classFamily(b.class)+"|"+s)
+			rec.Seen("garbage-class", b.Point+"|"+b.class)
+			rec.Stat("garbage_peers", 1)
+			rec.Stat("garbage_bytes_sent", int64(len(b.payload)))
+		}
 		if strings.HasPrefix(s, "open") {
 			open++
 		} else {
@@ -813,6 +1007,16 @@ func (rs *runState) runScenario(c *c15Case) (stalled bool) {
 		}
 	}
 	rec.Case(caseKey(c), true)
+	if allOK && hs != nil && !heldObserved {
+		// nothing failed, but the server's clock was not seen to act on the stalled peers: not the scenario that was meant
+		rec.Inconclusive("long stall: no expiry sweep of the DNS listener could be observed in time", c)
+		return
+	}
+	if allOK && hs != nil {
+		rec.Stat("long_stall_scenarios_held", 1)
+		rec.Stat("long_stall:expiry_sweeps_observed_before_the_last_good_clients", heldPasses)
+		rec.Seen("long-stall(kind,hold,label)", c.Kind+"|"+c.Hold+"|"+c.Label)
+	}
 	if allOK {
 		rec.Stat("scenarios_held", 1)
 		rec.Stat("scenarios_held:"+c.Kind, 1)
@@ -839,6 +1043,9 @@ func describe(bads []*badPeer) []string {
 	for i, b := range bads {
 		ok, step, e := b.status()
 		s := fmt.Sprintf("#%d point=%s reached=%v last-step=%s", i, b.Point, ok, step)
+		if b.class != "" {
+			s += fmt.Sprintf(" garbage=%s (%d bytes: %s)", b.class, len(b.payload), e2e.Clip(fmt.Sprintf("%q", b.payload), 120))
+		}
 		if e != "" {
 			s += " err=" + e
 		}
@@ -849,9 +1056,15 @@ func describe(bads []*badPeer) []string {
 
 // ---- case list -------------------------------------------------------------------------------
 
+const tunnelDomain = "t.example.org" // the fixture's default
+
 func buildCases(rec *vcommon.Rec, kind string) []*c15Case {
 	rng := vcommon.NewRand(rec.Seed(), "c15/"+kind)
 	pts := pointsOf(kind)
+	gpts := garbagePointsOf(kind)
+	allPts := append(append([]string(nil), pts...), gpts...)
+	base, _ := baseOf(kind)
+	big := rec.Thorough() && base != "dns" // (the DNS tunnel moves ~100 bytes per query)
 	var out []*c15Case
 	pickSizes := func(n int) [][2]int64 {
 		var s [][2]int64
@@ -860,10 +1073,13 @@ func buildCases(rec *vcommon.Rec, kind string) []*c15Case {
 		}
 		return s
 	}
-	add := func(order, label string, points []string, goods int) {
-		out = append(out, &c15Case{Kind: kind, Order: order, Points: points, Label: label, Goods: goods, Sizes: pickSizes(goods + 2),
-			Seed: rec.Seed()*1000000 + int64(len(out))})
+	addV := func(order, label string, points []string, goods, variant int) {
+		c := &c15Case{Kind: kind, Order: order, Points: points, Label: label, Goods: goods, Sizes: pickSizes(goods + 2),
+			Seed: rec.Seed()*1000000 + int64(len(out)), Variant: variant}
+		fillGarbage(c, tunnelDomain, big)
+		out = append(out, c)
 	}
+	add := func(order, label string, points []string, goods int) { addV(order, label, points, goods, 0) }
 	rep := func(pt string, k int) []string {
 		var s []string
 		for i := 0; i < k; i++ {
@@ -873,9 +1089,9 @@ func buildCases(rec *vcommon.Rec, kind string) []*c15Case {
 	}
 	mixed := func(k int) []string {
 		var s []string
-		off := rng.Intn(len(pts))
+		off := rng.Intn(len(allPts))
 		for i := 0; i < k; i++ {
-			s = append(s, pts[(off+i)%len(pts)])
+			s = append(s, allPts[(off+i)%len(allPts)])
 		}
 		return s
 	}
@@ -893,12 +1109,23 @@ func buildCases(rec *vcommon.Rec, kind string) []*c15Case {
 	}
 	out[0].Sizes[1] = [2]int64{1, 65536}
 	out[len(out)-1].Sizes[1] = [2]int64{65536, 1}
+	// garbage peers, one layer per scenario: 8 peers with 8 different pieces of garbage (the word count of
+	// the request line 0..4 is enumerated in every such scenario, everything else is drawn; thorough walks
+	// through separators x header shapes x line ends and through the non-textual classes as well)
+	for _, gpt := range gpts {
+		add("bad-first", gpt, rep(gpt, maxWords+4), 2)
+		if rec.Thorough() {
+			for v := 1; v <= 12; v++ {
+				addV("bad-first", gpt, rep(gpt, maxWords+4), 1+v%3, v)
+			}
+			add("good-first", gpt, rep(gpt, maxWords+4), 1)
+		}
+	}
 	// reverse order: a good client first, then the bad peers, then the same client again and a new one
-	add("good-first", pts[rng.Intn(len(pts))], nil, 1)
-	last := out[len(out)-1]
-	last.Points = rep(last.Label, 1+rng.Intn(3))
+	gf := allPts[rng.Intn(len(allPts))]
+	add("good-first", gf, rep(gf, 1+rng.Intn(3)), 1)
 	// mixed points
-	add("bad-first", "mixed", mixed(len(pts)), 2)
+	add("bad-first", "mixed", mixed(len(allPts)), 2)
 	if rec.Thorough() {
 		for _, pt := range pts {
 			add("good-first", pt, rep(pt, 1+rng.Intn(8)), 1)
@@ -906,6 +1133,48 @@ func buildCases(rec *vcommon.Rec, kind string) []*c15Case {
 		for k := 2; k <= 8; k += 2 {
 			add("bad-first", "mixed", mixed(k), 1+k%3)
 			add("good-first", "mixed", mixed(k), 1)
+		}
+	}
+	return out
+}
+
+// buildHoldCases lists the long-stall scenarios (c15_hold_test.go); each one is a work item of its own
+// (a DNS one lowers a package variable of the tunnel and waits a minute or two for the listener's sweep).
+func buildHoldCases(rec *vcommon.Rec, ks []string) []*c15Case {
+	var out []*c15Case
+	for _, kind := range ks {
+		rng := vcommon.NewRand(rec.Seed(), "c15hold/"+kind)
+		base, _ := baseOf(kind)
+		all := append(pointsOf(kind), garbagePointsOf(kind)...)
+		add := func(order, label string, points []string, hold string, n int) {
+			c := &c15Case{Kind: kind, Order: order, Points: points, Label: label, Goods: 2, Hold: hold, HoldN: n,
+				Seed: rec.Seed()*1000000 + 900000 + int64(len(out))}
+			for i := 0; i < 12; i++ {
+				// (the good clients of the waiting time use these too)
+				c.Sizes = append(c.Sizes, [2]int64{sizes[rng.Intn(len(sizes)-2)], sizes[rng.Intn(len(sizes)-2)]})
+			}
+			if hold == holdDNSPass {
+				c.DNSConnTimeoutS = 30
+			}
+			fillGarbage(c, tunnelDomain, false)
+			out = append(out, c)
+		}
+		switch {
+		case base == "dns":
+			// every stall point and every garbage layer at once, the good clients after the sweep that
+			// found the silent ones stale (thorough: one sweep more)
+			add("good-first", "held-over-expiry-sweep:mixed", all, holdDNSPass, rec.Pick(1, 2))
+			if rec.Thorough() && kind == "dns" {
+				for i, pt := range []string{ptDNSVersion, ptDNSOptions, ptDNSReqGone, ptDNSUpGone} {
+					var pp []string
+					for k := 0; k < 1+rng.Intn(4); k++ {
+						pp = append(pp, pt)
+					}
+					add([]string{"bad-first", "good-first"}[i%2], "held-over-expiry-sweep:"+pt, pp, holdDNSPass, 1)
+				}
+			}
+		case rec.Thorough():
+			add("good-first", "held-over-keepalive-timeout:mixed", all, holdSeconds, 40)
 		}
 	}
 	return out
@@ -934,6 +1203,14 @@ func TestVerifC15(t *testing.T) {
 	}
 	// work groups: (kind, half); one child runs all scenarios of its groups one after the other, so that
 	// a kind whose endpoint is blocked costs two stall windows and is then abandoned
+	// Long-stall scenarios first (work items after the (kind, half) groups): they change a package variable
+	// of the DNS tunnel for their duration and count the sweeps of their own listener.
+	for j, c := range buildHoldCases(rec, ks) {
+		if !rec.Mine(2*len(ks)+j) || rs.abandon != "" {
+			continue
+		}
+		rs.runScenario(c)
+	}
 	for ki, kind := range ks {
 		cs := buildCases(rec, kind)
 		for half := 0; half < 2; half++ {
@@ -943,6 +1220,11 @@ func TestVerifC15(t *testing.T) {
 			gk := fmt.Sprintf("%s/%d", kind, half)
 			for i, c := range cs {
 				if i%2 != half {
+					continue
+				}
+				if rs.abandon != "" {
+					rec.Note("scenario skipped: "+rs.abandon, map[string]interface{}{"skipped": c})
+					rec.Stat("scenarios_skipped_after_unfinished_cleanup", 1)
 					continue
 				}
 				if rs.stalls[gk] >= 2 {
